@@ -2,8 +2,15 @@
 
 Bounded exhaustive enumeration of TERMS of a small expression grammar (E2 over programs, DESIGN §4 C12):
 every operator of the grammar applied to every admissible operand combination (depth 1), and every operator
-applied to every distinct depth-1 result (depth 2), for every shape (Ne, nPg, d) of the alphabet — all
-collisions Ne == nPg == d and all size-1 axes included.
+applied to every verified depth-1 result (depth 2; results merged by kind / shape / dtype / layout / producing
+family, which is all the implementation's dispatch reads), for every shape (Ne, nPg, d) of the alphabet — all
+collisions Ne == nPg == d and all size-1 axes included.  Field objects (whose value is a (1, nPg, 1) array) are
+enumerated with their own operators and as right operands of FeArray operators.
+
+Violation keys: check in {value, shape, type, raises}; fam (operator family), fn (function, without arguments),
+sig (kinds of the operands of the outermost operator: F<rank>[c|e|p] field (c: (1,1), e: (Ne,1), p: (1,nPg)),
+P<rank> plain array, PQ plain (Ne,nPg)-shaped array, N0 numpy scalar, S/Si Python float/int, U Field),
+coinc (pattern of equalities between Ne, nPg and d).
 
 Oracle (reference model, plain numpy, never calls FeArray): explicit Python loops over (e, p); the tensor slice
 of a field at (e, p) and the WHOLE plain array (a constant tensor) go through the plain numpy operation; a
@@ -691,17 +698,16 @@ def compare(res, mv):
 
 
 def coinc(Ne, nPg, d):
-    tags = []
+    """Pattern of coincidences between the number of elements, of Gauss points and the tensor dimension."""
+    if Ne == nPg == d:
+        return "Ne=nPg=d"
     if Ne == nPg:
-        tags.append("Ne=nPg")
+        return "Ne=nPg"
     if Ne == d:
-        tags.append("Ne=d")
+        return "Ne=d"
     if nPg == d:
-        tags.append("nPg=d")
-    for nm, v in (("Ne", Ne), ("nPg", nPg), ("d", d)):
-        if v == 1:
-            tags.append(nm + "=1")
-    return ",".join(tags) or "none"
+        return "nPg=d"
+    return "none"
 
 
 def fn_of(op: str) -> str:
@@ -785,17 +791,6 @@ def evaluate(term, tally):
     else:
         tally.h.update(np.ascontiguousarray(a).tobytes())
     return res, mv
-
-
-def state_fp(res, mv):
-    a = np.asarray(res)
-    h = hashlib.sha1()
-    h.update(str((mv.kind, a.shape, a.dtype.kind, bool(a.flags.c_contiguous), bool(a.flags.writeable))).encode())
-    if a.dtype.kind in "fc":
-        h.update(np.ascontiguousarray(np.round(a, 10) + 0.0).tobytes())
-    else:
-        h.update(np.ascontiguousarray(a).tobytes())
-    return h.hexdigest()
 
 
 def state_class(res, mv, fam):
@@ -926,7 +921,7 @@ def _finish(tally, states=0):
 
 
 def _ctx(Ne, nPg, d, depth, extra=None):
-    key = {"coinc": coinc(Ne, nPg, d), "depth": depth}
+    key = {"coinc": coinc(Ne, nPg, d)}
     if extra:
         key.update(extra)
     return {"shape": f"Ne={Ne},nPg={nPg},d={d}", "key": key}
@@ -1102,8 +1097,6 @@ def _run_field(case):
             states.setdefault(state_class(res, mv, t.fam) + (fn_of(t.op),), (t.name, res, mv))
     for name, res, mv in states.values():
         R = result_operand("(" + name + ")", res, mv)
-        LL = dict(L)
-        LL["R"] = R
         for Y in (U, W):
             for A, B in ((R, Y), (Y, R)):
                 for t in binary_terms(A, B, 0):
